@@ -23,6 +23,7 @@ re-parsed output again with no new data gives the same entities.
 """
 import json
 
+from harness import common
 from harness.common import Model, s2l
 from harness.props import c15
 from harness.props.c15 import (FNAME, FORMATS, K_ENTITY, K_JUNK, K_PLACEHOLDER, ckind, centry,
@@ -319,6 +320,9 @@ WITNESSES = [
     ("inc-wrap-valueless-define", "inc",
      "#define foo\n#define bar BAR\n#define baz BAZ\n", "", {"foo": "x"}),
     ("inc-serialize-blank-line-junk", "inc", "#define A a\n#define B b\n", "", {"B": "x"}),
+    ("ftl-unwrap-includes-comment", "ftl", "# note for k\nk = English\n", "",
+     {"k": "# note for k\nk = Deutsch"}),
+    ("serialize-ws-fold-joins-lines", "properties", "a = A\nb = B\n", "a = la  ", {"b": "nb"}),
 ]
 
 
@@ -338,12 +342,132 @@ def run_witnesses(chk, only=None):
                           "why": "the placeholder of the untranslated first define is pruned, its "
                                  "newline stays: the output starts with a blank line, which "
                                  "DefinesParser (no `#filter emptyLines`) re-parses as Junk"})
+        if sig == "ftl-unwrap-includes-comment" and text is not None:
+            ents = [e for e in walk_bytes(name, text.encode("utf-8")) if ckind(e) == K_ENTITY]
+            if [e.unwrap() for e in ents] != [new_data["k"]]:
+                chk.fail(sig, {"fmt": fmt, "ref": ref_t, "old": old_t, "new_data": new_data},
+                         {"output": text, "entity_written": [e.unwrap() for e in ents],
+                          "why": "unwrap() of a commented entry includes the comment, wrap() "
+                                 "prepends the reference comment again"})
+        if sig == "serialize-ws-fold-joins-lines" and text is not None:
+            got = [(e.key, e.raw_val) for e in walk_bytes(name, text.encode("utf-8"))
+                   if ckind(e) == K_ENTITY]
+            if got != [("a", "la"), ("b", "nb")]:
+                chk.fail(sig, {"fmt": fmt, "ref": ref_t, "old": old_t, "new_data": new_data},
+                         {"output": text, "entities": got,
+                          "why": "prune keeps the longer whitespace '  ' of the old file's end "
+                                 "instead of the line break"})
         if sig == "inc-wrap-valueless-define" and text is not None and "BAR" in text:
             chk.fail(sig, {"fmt": fmt, "ref": ref_t, "old": old_t, "new_data": new_data},
                      {"output": text,
                       "why": "the reference entity `#define foo` has val_span (-1,-1) (unmatched "
                              "group): Entity.wrap slices contents[start:-1] + raw + contents[-1:end], "
                              "the rest of the reference file is copied into the localization"})
+
+
+def run_ftl_unwrap(chk, model):
+    """FTL-UNWRAP: new raw values are entity.unwrap() of COMMENTED Fluent entries of a
+    localized file (what a tool gets from parsing).  Oracle: the entry written for the key is,
+    text for text, the reference comment followed by the message rendered from the record.
+    Listed finding `ftl-unwrap-includes-comment`: attributed only when the given raw value
+    starts with a comment line (unwrap() included it) and the written entry is exactly
+    <reference comment> + <raw value as given> (the comment carried in the value, twice when
+    the reference has one); anything else stays a violation."""
+    rng = chk.rng
+    name = FNAME["ftl"]
+    cases, impl, reqs = [], [], []
+    for _ in range(chk.n(150, 1500)):
+        case = gen_triple(rng, "ftl")
+        ref_coms = {it[1]: it[3] for it in case["ref_items"] if it[0] == "ent"}
+        keys = [k for k, v in case["new_data"].items() if v is not None and k in ref_coms]
+        if not keys:
+            continue
+        # the localized file the tool parsed: the new values, commented
+        l10n_items = [("ent", k, case["new_recs"][k],
+                       ref_coms[k] if rng.random() < 0.6 else rng.choice(["l10n note", None]))
+                      for k in keys]
+        l10n = {e.key: e for e in walk_bytes(name, render("ftl", l10n_items).encode("utf-8"))
+                if ckind(e) == K_ENTITY}
+        case["new_data"] = dict(case["new_data"], **{k: l10n[k].unwrap() for k in keys})
+        ref = walk_bytes(name, case["ref"].encode("utf-8"))
+        old = walk_bytes(name, case["old"].encode("utf-8"))
+        res, text = serialize_impl(name, ref, old, case["new_data"])
+        chk.count(("ftlu", case["ref"], case["old"], sorted(case["new_data"].items(), key=str)))
+        desc = describe(case)
+        cases.append(desc)
+        impl.append(res)
+        reqs.append(model_request(name, ref, old, case["new_data"]))
+        if text is None:
+            chk.fail("serialize-raises", desc, res)
+            continue
+        oracle_serialize(chk, case, ref, text)
+        out = {e.key: e for e in walk_bytes(name, text.encode("utf-8")) if ckind(e) == K_ENTITY}
+        for k in keys:
+            raw = case["new_data"][k]
+            got = out[k].all if k in out else None
+            rc = ref_coms[k]
+            head = render_comment("ftl", rc) + "\n" if rc is not None else ""
+            if got == head + render_entity("ftl", k, case["new_recs"][k]):
+                continue
+            doubled = raw.startswith("#") and got == head + raw
+            chk.fail("ftl-unwrap-includes-comment" if doubled else "serialize-values", desc,
+                     {"output": text, "key": k, "raw_value_given": raw, "entity_written": got})
+            break
+    if model:
+        chk.correspond("FTL-UNWRAP", cases, impl, model.call(reqs))
+
+
+def run_ws_fold(chk, model):
+    """WS-FOLD: the old localization has no final newline and ends in blanks / tabs
+    (.properties, .dtd).  Ordinary oracle.  Listed finding `serialize-ws-fold-joins-lines`:
+    a failure is attributed to it only when, recomputed from the input, the old text ends in
+    a run of blanks/tabs without newline AND the output equals the output for the
+    newline-terminated old file with exactly one run of newlines replaced by that blank run
+    (the line break lost against the longer whitespace); anything else stays a violation."""
+    import re
+    rng = chk.rng
+    cases, impl, reqs = [], [], []
+    for _ in range(chk.n(200, 2000)):
+        fmt = rng.choice(["properties", "properties", "dtd"])   # (.ini: trailing blanks are value)
+        case = gen_triple(rng, fmt)
+        if not case["old"].strip():
+            continue
+        tail = "".join(rng.choice(" \t") for _ in range(rng.randint(1, 4)))
+        clean_old = case["old"]
+        case["old"] = case["old"].rstrip("\n") + tail
+        name = FNAME[fmt]
+        ref = walk_bytes(name, case["ref"].encode("utf-8"))
+        old = walk_bytes(name, case["old"].encode("utf-8"))
+        res, text = serialize_impl(name, ref, old, case["new_data"])
+        chk.count(("wsf", fmt, case["ref"], case["old"], sorted(case["new_data"].items(), key=str)))
+        desc = describe(case)
+        cases.append(desc)
+        impl.append(res)
+        reqs.append(model_request(name, ref, old, case["new_data"]))
+        if text is None:
+            chk.fail("serialize-raises", desc, res)
+            continue
+        sub = common.Check(chk.prop, chk.tier, chk.seed)
+        sub.known = []
+        oracle_serialize(sub, case, ref, text)
+        joined = False
+        if sub.failures and not case["old"].endswith("\n"):
+            # the same triple with the newline-terminated old file: the output with the blank
+            # run of the old file's end is that output with ONE run of newlines replaced by it
+            _, clean = serialize_impl(name, ref, walk_bytes(name, clean_old.encode("utf-8")),
+                                      case["new_data"])
+            if clean is not None:
+                joined = any(clean[:m.start()] + tail + clean[m.end():] == text
+                             for m in re.finditer(r"\n+", clean))
+        for f in sub.failures:
+            generic = f["signature"] in ("serialize-reparse-junk", "serialize-entities",
+                                         "serialize-values", "serialize-idempotent",
+                                         "serialize-wrapped-text")
+            chk.fail("serialize-ws-fold-joins-lines" if joined and generic else f["signature"],
+                     f["case"], dict(f["detail"], old_tail=tail) if isinstance(f["detail"], dict)
+                     else f["detail"])
+    if model:
+        chk.correspond("WS-FOLD", cases, impl, model.call(reqs))
 
 
 def run(chk, runner_ok):
@@ -402,6 +526,9 @@ def run(chk, runner_ok):
         reqs.append(model_request(used_name, ref, old, nd))
     if model:
         chk.correspond("SERIALIZE-wild", cases, impl, model.call(reqs))
+    # ---- streams of the two listed findings (and only these families) ---------------
+    run_ftl_unwrap(chk, model)
+    run_ws_fold(chk, model)
     # ---- SEQUENCE: supported and unsupported names interleaved in this one process ------
     # (which names have a parser is known from how c15.seq_sequences builds them)
     cases, impl, reqs = [], [], []
